@@ -57,6 +57,19 @@ func ConstraintErrorAddPathSegment(err error, pathSegment string) error {
 	}
 }
 
+// asConstraintError makes sure a rejection is reported as a ConstraintError: errors of the lenient
+// converters (strconv failures, unsupported Go types) are wrapped, constraint errors are kept.
+func asConstraintError(err error) error {
+	var c *ConstraintError
+	if err == nil || errors.As(err, &c) {
+		return err
+	}
+	return &ConstraintError{
+		Message: "Invalid value",
+		Cause:   err,
+	}
+}
+
 // NoSuchStepError indicates that the given step is not supported by the plugin.
 type NoSuchStepError struct {
 	Step string
